@@ -306,11 +306,22 @@ pub fn c06_special(rep: &mut Rep) {
         ("C06.special", "1,CONSUMO,CAL,BIOMASA,100\n1,AUX,5\n2,CONSUMO,ACS,GASNATURAL,100\n2,AUX,3", 8.0),
         // a system declared only through its outputs and its auxiliaries (a pump group, no CONSUMO line), one and two services
         ("C06.counted_in_balance", "1,CONSUMO,CAL,GASNATURAL,100,80\n1,SALIDA,CAL,90,72\n2,AUX,6,4\n2,SALIDA,CAL,50,40", 10.0),
+        // a single-service system whose own consumption is declared and zero (fans declared only through their auxiliaries), next to a boiler with a pump
+        ("C06.counted_in_balance", "2,CONSUMO,VEN,ELECTRICIDAD,0,0,0\n2,AUX,10,12,8\n1,CONSUMO,CAL,GASNATURAL,50,50,50\n1,AUX,2,2,2", 36.0),
         ("C06.counted_in_balance", "1,CONSUMO,CAL,GASNATURAL,100,80\n2,AUX,6,4\n2,SALIDA,CAL,50,40\n2,SALIDA,ACS,10,10\n3,PRODUCCION,EL_INSITU,1,1", 10.0),
     ] {
         rep.evals += 1;
         let comps: Components = match text.parse() { Ok(c) => c, Err(e) => { rep.fail(clause, text, format!("rejected: {}", e)); continue } };
         let w = crate::factors("PENINSULA");
+        // the same with the factor set simplified for this building (the sequence the command line tool follows)
+        if clause == "C06.counted_in_balance" {
+            let ws = w.clone().strip(&comps);
+            match energy_performance(&comps, &ws, 0.0, 1.0, false) {
+                Ok(ep) => { let got = ep.balance_cr.get(&Carrier::ELECTRICIDAD).map(|b| b.used.epus_an).unwrap_or(0.0); let declared_el: f32 = comps.data.iter().filter_map(|c| match c { Energy::Used(e) if e.carrier == Carrier::ELECTRICIDAD && e.service.is_epb() => Some(e.values.iter().sum::<f32>()), _ => None }).sum();
+                    if !eq(got, declared_el + aux_total) { rep.fail(clause, text, format!("with the simplified factor set: EPB electricity use in the balance is {}, declared {} + auxiliaries {}", got, declared_el, aux_total)); } }
+                Err(e) => rep.fail(clause, text, format!("evaluation with the simplified factor set failed: {}", e)),
+            }
+        }
         match energy_performance(&comps, &w, 0.0, 1.0, false) {
             Ok(ep) => {
                 let declared_el: f32 = comps.data.iter().filter_map(|c| match c { Energy::Used(e) if e.carrier == Carrier::ELECTRICIDAD && e.service.is_epb() => Some(e.values.iter().sum::<f32>()), _ => None }).sum();
